@@ -114,7 +114,7 @@ package hap
 // ---- the session implementation (C01, C03)
 // Object invariant: whatever cryptographer a session holds (current or pending) was derived from an authenticated
 // pair-verify exchange. Established by NewSession (both nil), preserved by the only writers of the two fields.
-//@ pred sessInv(s) = s != nil && (s.cryptographer != nil ==> authOK(sskey(s.cryptographer))) && (s.nextCryptographer != nil ==> authOK(sskey(s.nextCryptographer)))
+//@ pred sessInv(s) = s != nil && (s.cryptographer != nil ==> authOK(sskey(s.cryptographer))) && (s.nextCryptographer != nil ==> authOK(sskey(s.nextCryptographer))) && s.mu != nil && s.subs != nil
 //@ typeinv sessInv
 //@ abstraction verified(s) = s.cryptographer != nil && authOK(sskey(s.cryptographer))
 //@ writers C01 github.com/brutella/hc/hap.session fields cryptographer, nextCryptographer only (*github.com/brutella/hc/hap.session).Decrypter; (*github.com/brutella/hc/hap.session).SetCryptographer
@@ -141,11 +141,57 @@ package hap
 //@   ensures inv: sessInv(s)
 //@   ensures unchanged(s.cryptographer)
 
+// ---- event messages (C10). nbody(aid, iid, value): the JSON body for one characteristic value (encoding/json assumed);
+// evmsg(body) = the serialised response with its protocol specifier replaced by EVENT/1.0
+//@ spec func nbody(int, int, iface) seq
+//@ func NewCharacteristicNotification(a, c) (resp, err)
+//@   trusted
+//@   requires a != nil && wellTyped(c)
+//@   fresh resp
+//@   pure
+//@   ensures err == nil && resp != nil && resp.Body != nil && ref(resp.Body) != ref(resp) && stream(resp.Body) == nbody(a.ID, c.ID, c.Value)
+//@ func FixProtocolSpecifier(b) (r)
+//@   fresh r
+//@   pure
+//@   ensures seq(r) == seq(strrepl(tostr(seq(b)), "HTTP/1.0", "EVENT/1.0", 1))
+
+// ---- subscriptions (C10): the set is keyed by the characteristic object itself (ids repeat across accessories)
+//@ abstraction subs(s, c) = s.subs[c]
+//@ func (s *session) Subscribe(ch)
+//@   refines "github.com/brutella/hc/hap.Session.Subscribe"
+//@   requires inv: sessInv(s)
+//@   modifies s.subs[:], held(s.mu)
+//@   ensures s.subs[ch] && !held(s.mu)
+//@ func (s *session) Unsubscribe(ch)
+//@   refines "github.com/brutella/hc/hap.Session.Unsubscribe"
+//@   requires inv: sessInv(s)
+//@   modifies s.subs[:], held(s.mu)
+//@   ensures !s.subs[ch] && !held(s.mu)
+//@ func (s *session) IsSubscribedTo(ch) (b)
+//@   refines "github.com/brutella/hc/hap.Session.IsSubscribedTo"
+//@   requires inv: sessInv(s)
+//@   modifies held(s.mu)
+//@   ensures b == s.subs[ch] && !held(s.mu)
+
 // ---- connections (C06, C08, C09)
 // curEnc(con): the encrypter of the connection's session as seen by getEncrypter (nil while the connection is not verified)
 //@ ghost curEnc(ref) iface
+// sessFor(ctx, c): the session registered for connection c (nil when there is none, e.g. after Close)
+//@ spec func sessFor(iface, iface) iface
 //@ invoke "github.com/brutella/hc/hap.Context.GetSessionForConnection"(ctx, c) (s)
 //@   pure
+//@   ensures s == sessFor(ctx, c)
+// the active connections: one entry per registered session, its connection (never nil: NewConnection is the only creator
+// of sessions), pairwise different connection objects (one session per accepted connection) - assumed, the context
+// implementation iterates a Go map and is not verified
+//@ pred distinctActive(ctx) = forallv("i:int j:int", 0 <= i && i < j && j < activeN(ctx) ==> ref(activeAt(ctx, i)) != ref(activeAt(ctx, j)), activeAt(ctx, i), activeAt(ctx, j))
+//@ spec func activeN(iface) int
+//@ spec func activeAt(iface, int) iface
+//@ invoke "github.com/brutella/hc/hap.Context.ActiveConnections"(ctx) (conns)
+//@   fresh conns
+//@   pure
+//@   ensures len(conns) == activeN(ctx) && forall(i, 0, len(conns), conns[i] == activeAt(ctx, i) && typeis(conns[i], "*github.com/brutella/hc/hap.Connection") && ref(conns[i]) > 0)
+//@   ensures distinctActive(ctx)
 //@ invoke "github.com/brutella/hc/hap.Context.DeleteSessionForConnection"(ctx, c)
 //@   modifies heapof("map"), heapof("iface")
 
